@@ -246,7 +246,7 @@ def nat_onload(params, model):
 
 
 # ---------------------------------------------------------------------------- stand-alone rechunker
-def run_standalone(L, obj, replace, target, compressor, base):
+def run_standalone(L, obj, replace, target, compressor, base, pbar=True, dest="other"):
     import strax
 
     a, b = os.path.join(base, "a"), os.path.join(base, "b")
@@ -255,13 +255,20 @@ def run_standalone(L, obj, replace, target, compressor, base):
     st.make(RUN, "src", processor="single_thread")
     src_dir = os.path.join(a, str(st.key_for(RUN, "src")))
     _quiet_tqdm()
-    kw = dict(replace=replace, rechunk=True, target_size_mb=_tsm(target, obj), progress_bar=True, parallel=False)
+    kw = dict(replace=replace, rechunk=True, target_size_mb=_tsm(target, obj), progress_bar=pbar, parallel=False)
     if compressor:
         kw["compressor"] = compressor
     if not replace:
-        kw["dest_directory"] = b
-    summary = strax.rechunker(src_dir, **kw)
-    where = a if replace else b
+        # dest="parent" / "self": the destination resolves to the source folder itself
+        kw["dest_directory"] = {"other": b, "parent": a, "self": src_dir}[dest]
+    refused = False
+    try:
+        summary = strax.rechunker(src_dir, **kw)
+    except ValueError:
+        if dest == "other":
+            raise
+        refused = True  # an explicit refusal is fine as long as the source is intact
+    where = a if (replace or dest != "other") else b
     st2 = ctx.make_context(P, storage=[strax.DataDirectory(where, readonly=True)], forbid_creation_of=("src",))
     chunks = list(st2.get_iter(RUN, "src", processor="single_thread", progress_bar=False))
     md = st2.get_metadata(RUN, "src")
@@ -272,12 +279,12 @@ def run_standalone(L, obj, replace, target, compressor, base):
     return chunks, md, src_after
 
 
-def sym_standalone(layout, replace=False, target=2, compressor=None):
+def sym_standalone(layout, replace=False, target=2, compressor=None, pbar=True, dest="other"):
     S = fresh_int("S", 0, H.T_MAX); E = fresh_int("E", 0, H.T_MAX)
     L = ctx.sym_layout("src_", layout, S, E=E)
     base = tempfile.mkdtemp(prefix="verif_c16_")
     try:
-        chunks, md, src_after = run_standalone(L, True, replace, target, compressor, base)
+        chunks, md, src_after = run_standalone(L, True, replace, target, compressor, base, pbar, dest)
         return _check_standalone(chunks, md, src_after, L, S, E, compressor)
     finally:
         shutil.rmtree(base, ignore_errors=True)
@@ -302,7 +309,8 @@ def nat_standalone(params, model):
         with warnings.catch_warnings():
             warnings.simplefilter("ignore")
             chunks, md, src_after = run_standalone(L, False, params.get("replace", False), params.get("target", 2),
-                                                   params.get("compressor"), base)
+                                                   params.get("compressor"), base, params.get("pbar", True),
+                                                   params.get("dest", "other"))
         label = core.concrete_run(lambda: _check_standalone(chunks, md, src_after, L, S, E, params.get("compressor")), model)
         return {"ok": label is None, "detail": label or "stand-alone rechunker preserves the data", "label": label}
     finally:
@@ -361,8 +369,114 @@ def nat_perchunk(params, model):
         shutil.rmtree(base, ignore_errors=True)
 
 
+# ---------------------------------------------------------------------------- a chunk write fails during rechunking
+class _EagerPool:
+    """executor whose futures are real concurrent.futures.Future objects completed at submission (symbolic runs: the
+    pool's timing is outside, the error path is what counts)"""
+
+    def __init__(self, *a, **k):
+        pass
+
+    def submit(self, fn, *a, **k):
+        from concurrent.futures import Future
+
+        f = Future()
+        try:
+            f.set_result(fn(*a, **k))
+        except Exception as e:  # noqa
+            f.set_exception(e)
+        return f
+
+    def shutdown(self, wait=True):
+        pass
+
+
+def run_failwrite(L, obj, fail_at, parallel, base):
+    """strax.rechunker(replace=True) while the write of output chunk number `fail_at` fails (disk full, codec limit):
+    whatever the mode, the call must raise and the source must stay what it was."""
+    import strax
+    import strax.storage.file_rechunker as fr
+    from symx import conc
+    from harness import mbox
+
+    a = os.path.join(base, "a")
+    P = _plugins(L, obj)
+    st = ctx.make_context(P, storage=[strax.DataDirectory(a)])
+    st.make(RUN, "src", processor="single_thread")
+    src_dir = os.path.join(a, str(st.key_for(RUN, "src")))
+    _quiet_tqdm()
+    real_save, n = strax.save_file, [0]
+
+    def failing_save(*a_, **k_):
+        n[0] += 1
+        if n[0] - 1 == fail_at:
+            raise OSError("No space left on device (injected)")
+        return real_save(*a_, **k_)
+
+    real_exec = fr._get_executor
+    strax.save_file = failing_save
+    raised = None
+    try:
+        kw = dict(replace=True, rechunk=False, progress_bar=True, parallel=parallel, _timeout=5)
+        try:
+            if parallel and obj:
+                fr._get_executor = lambda p, w: _EagerPool()
+                with mbox.SchedRun(conc.POLICIES["rr"]) as s:
+                    try:
+                        strax.rechunker(src_dir, **kw)
+                    finally:
+                        s.finish()
+            else:
+                strax.rechunker(src_dir, **kw)
+        except Exception as e:  # noqa
+            raised = e
+    finally:
+        strax.save_file = real_save
+        fr._get_executor = real_exec
+    st2 = ctx.make_context(P, storage=[strax.DataDirectory(a, readonly=True)], forbid_creation_of=("src",))
+    try:
+        chunks = list(st2.get_iter(RUN, "src", processor="single_thread", progress_bar=False))
+    except strax.DataNotAvailable:
+        chunks = None
+    return raised, chunks
+
+
+def _check_failwrite(raised, chunks, L, S, E, tag):
+    prove(chunks is not None, f"failwrite:{tag}: the data rechunked in place is gone after a failed chunk write "
+                              f"(rechunker {'raised ' + type(raised).__name__ if raised else 'returned normally'})")
+    _same(chunks, L, "failwrite", S, E)
+    prove(raised is not None, f"failwrite:{tag}: a chunk write failed but rechunker returned normally")
+    return type(raised).__name__
+
+
+def sym_failwrite(layout, parallel=False):
+    S = fresh_int("S", 0, H.T_MAX); E = fresh_int("E", 0, H.T_MAX)
+    L = ctx.sym_layout("src_", layout, S, E=E)
+    fail_at = core.concretize(fresh_int("fail_at", 0, len(layout) - 1))
+    base = tempfile.mkdtemp(prefix="verif_c16_")
+    try:
+        raised, chunks = run_failwrite(L, True, fail_at, parallel, base)
+        return _check_failwrite(raised, chunks, L, S, E, f"parallel={parallel}")
+    finally:
+        shutil.rmtree(base, ignore_errors=True)
+
+
+def nat_failwrite(params, model):
+    S, E = model["S"], model["E"]
+    L = ctx.conc_layout(model, "src_", params["layout"], S, E=E)
+    base = tempfile.mkdtemp(prefix="verif_c16n_")
+    try:
+        with warnings.catch_warnings():
+            warnings.simplefilter("ignore")
+            raised, chunks = run_failwrite(L, False, model.get("fail_at", 0) or 0, params.get("parallel", False), base)
+        label = core.concrete_run(lambda: _check_failwrite(raised, chunks, L, S, E, f"parallel={params.get('parallel', False)}"), model)
+        return {"ok": label is None, "detail": label or f"raised {type(raised).__name__}, source intact", "label": label}
+    finally:
+        shutil.rmtree(base, ignore_errors=True)
+
+
 # ---------------------------------------------------------------------------- explicit job groupings, partial merges
-def run_groups(L, obj, base, cuts, mask):
+def run_groups(L, obj, base, cuts, mask, rev=False):
     """Jobs = consecutive groups of dependency chunks (cut after chunk i iff cuts[i]); m1 is made per job; then the jobs
     selected by `mask` are merged with an explicit chunk_number_group."""
     import strax
@@ -381,6 +495,8 @@ def run_groups(L, obj, base, cuts, mask):
     for job in jobs:
         st.make(RUN, "m1", chunk_number={"src": job}, processor="single_thread")
     chosen = [job for job, m in zip(jobs, mask) if m]
+    if rev:
+        chosen = chosen[::-1]  # the list of groups is given in another order than that of time
     try:
         st.merge_per_chunk_storage(RUN, "m1", "src", chunk_number_group=chosen, rechunk=False)
     except ValueError:
@@ -416,6 +532,7 @@ def sym_groups(layout):
     S = fresh_int("S", 0, H.T_MAX); E = fresh_int("E", 0, H.T_MAX)
     L = ctx.sym_layout("src_", layout, S, E=E)
     cuts, mask = _groups_choice(len(layout), lambda nm: fresh_bool(nm))
+    rev = bool(fresh_bool("rev"))
     if not any(mask):
         raise core.PathAbort("nothing to merge")
     if sum(mask) == 1 and len(mask) > 1:
@@ -423,7 +540,7 @@ def sym_groups(layout):
         raise core.PathAbort("single partial job")
     base = tempfile.mkdtemp(prefix="verif_c16_")
     try:
-        jobs, chosen, complete, chunks = run_groups(L, True, base, cuts, mask)
+        jobs, chosen, complete, chunks = run_groups(L, True, base, cuts, mask, rev)
         return _check_groups(jobs, chosen, complete, chunks, L, S, E)
     finally:
         shutil.rmtree(base, ignore_errors=True)
@@ -437,7 +554,7 @@ def nat_groups(params, model):
     try:
         with warnings.catch_warnings():
             warnings.simplefilter("ignore")
-            jobs, chosen, complete, chunks = run_groups(L, False, base, cuts, mask)
+            jobs, chosen, complete, chunks = run_groups(L, False, base, cuts, mask, bool(model.get("rev", False)))
         label = core.concrete_run(lambda: _check_groups(jobs, chosen, complete, chunks, L, S, E), model)
         return {"ok": label is None, "detail": label or "partial merges stay partial, complete ones equal the data", "label": label}
     finally:
@@ -455,6 +572,14 @@ def _lays(tier):
 
 
 MUTANTS = [
+    dict(name="rechunker moves the copy although a write failed (original defect F-C16d)", file="strax/storage/file_rechunker.py",
+         only="failwrite", old="    if saver.got_exception is not None:", new="    if False:"),
+    dict(name="rechunker accepts its own source as destination (original defect F-C16e)", file="strax/storage/file_rechunker.py",
+         only="standalone", old="    if os.path.realpath(dest_directory) == os.path.realpath(source_directory):", new="    if False:"),
+    dict(name="disabled progress bar used (original defect F-C16f)", file="strax/storage/file_rechunker.py",
+         only="standalone", old="                if not pbar.disable:", new="                if True:"),
+    dict(name="per-chunk groups merged in the order listed (original defect F-C16g)", file="strax/context.py",
+         only="groups", old="            chunk_number_group = sorted(chunk_number_group)\n", new=""),
     dict(name="original F-C16: rechunk on load reads .data of the pool's Future", file="strax/storage/common.py",
          old="            if executor is not None:\n                # We have to look at the data to split it\n                chunk = chunk.result()\n",
          new=""),
@@ -482,7 +607,12 @@ OBLIGATIONS = [
        nat_onload, setup=_setup, witnesses=1),
     Ob("standalone", sym_standalone, lambda tier: [dict(layout=l, replace=rp, target=t) for l in _lays(tier)
                                                    for rp in (False, True) for t in (1, 2)] +
-       [dict(layout=[2, 1], compressor="zstd", target=3)], nat_standalone, setup=_setup, witnesses=1),
+       [dict(layout=[2, 1], compressor="zstd", target=3), dict(layout=[2, 1], target=2, pbar=False),
+        dict(layout=[1, 1], target=2, replace=True, pbar=False), dict(layout=[2, 1], target=2, dest="parent"),
+        dict(layout=[1, 1], target=1, dest="self")], nat_standalone, setup=_setup, witnesses=1),
+    Ob("failwrite", sym_failwrite, lambda tier: [dict(layout=l, parallel=p) for l in ([1, 1], [2, 1]) for p in (False, "thread")],
+       nat_failwrite, setup=_setup, witnesses=1,
+       doc="a failing chunk write (solver-chosen chunk) during rechunker(replace=True): raises, source intact"),
     Ob("groups", sym_groups, lambda tier: [dict(layout=l) for l in ([[1, 1, 1]] if tier == "quick" else [[1, 1, 1], [1, 1, 1, 1], [2, 0, 1]])],
        nat_groups, setup=_setup, witnesses=1,
        doc="solver-chosen grouping of dependency chunks into jobs and solver-chosen subset of jobs merged: stored as the "
